@@ -20,6 +20,30 @@ use stateright::Representative;
 use walk::*;
 
 
+/// representative() cannot rewrite ids of actors that do not exist: keep every destination in range
+pub fn clamp_ids(sys: &mut System) {
+    let n = sys.tables.len() as u8;
+    for t in sys.tables.iter_mut() {
+        let fix = |cmds: &mut Vec<Cmd>| {
+            for c in cmds.iter_mut() {
+                if let Cmd::Send { dst: Dst::Abs(i), .. } = c {
+                    *i %= n;
+                }
+                if let Cmd::Broadcast { dsts, .. } = c {
+                    for i in dsts.iter_mut() {
+                        *i %= n;
+                    }
+                }
+            }
+        };
+        fix(&mut t.start);
+        for (_, r) in t.msg.iter_mut().chain(t.timer.iter_mut()).chain(t.random.iter_mut()) {
+            fix(&mut r.cmds);
+        }
+    }
+    sys.init_net.retain(|(_, d, _)| *d < n);
+}
+
 pub fn gen_walk(focus: &str, seed: u64) -> WalkScenario {
     let mut rng = Rng::new(seed);
     let mut g = SysGen::default();
@@ -68,27 +92,7 @@ pub fn gen_walk(focus: &str, seed: u64) -> WalkScenario {
         }
     }
     if focus == "C10" {
-        // representative() cannot rewrite ids of actors that do not exist
-        let n = sys.tables.len() as u8;
-        for t in sys.tables.iter_mut() {
-            let fix = |cmds: &mut Vec<Cmd>| {
-                for c in cmds.iter_mut() {
-                    if let Cmd::Send { dst: Dst::Abs(i), .. } = c {
-                        *i %= n;
-                    }
-                    if let Cmd::Broadcast { dsts, .. } = c {
-                        for i in dsts.iter_mut() {
-                            *i %= n;
-                        }
-                    }
-                }
-            };
-            fix(&mut t.start);
-            for (_, r) in t.msg.iter_mut().chain(t.timer.iter_mut()).chain(t.random.iter_mut()) {
-                fix(&mut r.cmds);
-            }
-        }
-        sys.init_net.retain(|(_, d, _)| *d < n);
+        clamp_ids(&mut sys);
     }
     WalkScenario {
         sys,
